@@ -200,6 +200,8 @@ def main(tier, seed, replay=None):
                       'tracemalloc peak of each streaming path (add streamed, direct-to-pack compressed, pack AUTO, chunked read plain/compressed, '
                       'repack, validate, import) at 4 and 16 MiB (thorough: 16 and 64 MiB), required < 12 MiB and not growing with size')
     ck.coq()
+    import tracecheck
+    tracecheck.check_traces(ck, 'C18', names=['add', 'add_big', 'pack_small', 'topack_multi', 'repack'])
     hist.run_histories(ck, 'C18', [('mixed', 60 if tier == 'quick' else 1500, 18, False)])
     try:
         fd_and_open_files(ck)
